@@ -7,6 +7,12 @@ class Job:
     def execute(self): pass
     def request_stop(self): pass
 
+    def run_finished(self):
+        """
+        Called when a run of this job under job control is over and no
+        further stop request for that run can arrive.
+        """
+
 
 class Agent:
     """
@@ -18,6 +24,11 @@ class Agent:
         self._callback = callback
         self._thread = None
         self._name = name or 'job {}'.format(id(self))
+
+        # An Agent stands for one run of its job. Once that run is over, a
+        # stop request must no longer reach the job, which may be run again.
+        self._lock = threading.Lock()
+        self._finished = False
 
     @property
     def name(self):
@@ -36,12 +47,18 @@ class Agent:
         return self
 
     def request_stop(self):
-        self._job.request_stop()
+        with self._lock:
+            if not self._finished:
+                self._job.request_stop()
 
     def _execute_and_call(self):
         try:
             self._job.execute()
         finally:
+            with self._lock:
+                self._finished = True
+            if hasattr(self._job, 'run_finished'):
+                self._job.run_finished()
             self._callback(self)
 
 
